@@ -384,35 +384,136 @@ def top_field(path):
             '.' not in path[1:] and '$' not in path[1:])
 
 
+BSON_RANK = {type(None): 1, int: 2, float: 2, str: 3, bool: 6}
+
+
+def bson_key(v):
+    """the BSON order on plain scalars: null < numbers < strings < booleans"""
+    r = BSON_RANK[type(v)]
+    return (r, 0 if v is None else v)
+
+
+def acc_scalar(v):
+    return v is None or isinstance(v, (int, float, str, bool))
+
+
+def ref_accumulator(op, present):
+    """the accumulator `op` over `present`: the values of the field on the documents of one
+    group, in order, MISSING for a document that lacks it; None = this reference does not answer"""
+    vals = [v for v in present if v is not MISSING]
+    if not all(acc_scalar(v) for v in vals):
+        return None
+    nums = [v for v in vals if isinstance(v, (int, float)) and not isinstance(v, bool)]
+    if op == '$sum':
+        return ('v', sum(nums))
+    if op == '$avg':
+        if any(isinstance(v, float) for v in nums):
+            return None
+        return ('v', (sum(nums) / float(len(nums))) if nums else None)
+    if op in ('$min', '$max'):
+        nn = [v for v in vals if v is not None]
+        if not nn:
+            return ('v', None)
+        best = nn[0]
+        for v in nn[1:]:
+            if (bson_key(v) < bson_key(best)) if op == '$min' else (bson_key(best) < bson_key(v)):
+                best = v
+        return ('v', best)
+    if op == '$first':
+        return ('v', None if present[0] is MISSING else present[0])
+    if op == '$last':
+        return ('v', None if present[-1] is MISSING else present[-1])
+    if op == '$push':
+        return ('v', vals)
+    if op == '$addToSet':
+        if any(isinstance(v, bool) for v in vals):
+            return None                      # true / 1 are merged: listed finding addtosetboolnum
+        out = []
+        for v in vals:
+            if not any(key_class(v) == key_class(w) for w in out):
+                out.append(v)
+        return ('v', out)
+    return None
+
+
+MISSING = object()
+GROUP_OPS = ('$sum', '$avg', '$min', '$max', '$first', '$last', '$push', '$addToSet')
+
+
+def same_value(a, b):
+    """equal values of the same kind (1 and 1.0 are one number; True is not 1)"""
+    if isinstance(a, list) and isinstance(b, list):
+        return len(a) == len(b) and all(same_value(x, y) for x, y in zip(a, b))
+    if isinstance(a, bool) != isinstance(b, bool):
+        return False
+    return type(a) in (int, float) and type(b) in (int, float) and a == b or \
+        (type(a) == type(b) and a == b)
+
+
 def group_lookup_oracles(ctx, case, db, stats):
-    """$group partitions by key value, $lookup attaches exactly the matching foreign documents:
-    stated on python with a plain Python partition / join as the reference"""
+    """$group partitions by key value and folds each part with its accumulators, $lookup attaches
+    exactly the matching foreign documents: stated on python with a plain Python partition /
+    fold / join as the reference"""
     op, opts = first_stage(case)
     docs = case['docs']
-    if not docs or not isinstance(opts, dict):
+    if not isinstance(opts, dict):
         return
-    if op == '$group' and top_field(opts.get('_id')):
-        f = opts['_id'][1:]
-        keys = [d.get(f) for d in docs]
-        if not all(plain_key(k) for k in keys):
-            return
-        stats['group=partition'] += 1
-        pipeline = [{'$group': {'_id': '$' + f, 'n': {'$sum': 1}, 'ids': {'$push': '$_id'}}}]
-        got = agg(db.c, pipeline)
-        want = collections.OrderedDict()
-        for d, k in zip(docs, keys):
-            want.setdefault(key_class(k), []).append(d['_id'])
-        ok = not isinstance(got, Exception) and len(got) == len(want) and all(
-            isinstance(g, dict) and plain_key(g.get('_id')) and
-            want.get(key_class(g['_id'])) == g.get('ids') and g.get('n') == len(g.get('ids', []))
-            for g in got)
-        if not ok:
-            oids = wire.Oids()
-            ctx.violation(render(dict(case, pipeline=pipeline), kind='$group does not partition '
-                                 'its input by key value (each group = the documents of that key '
-                                 'in input order, counted once)', got=show_safe(got, oids),
-                                 expected_groups=[[list(k), v] for k, v in want.items()]),
-                          rank=150 + len(repr(docs)))
+    if op == '$group' and '_id' in opts:
+        gid = opts['_id']
+        const = gid is None or isinstance(gid, (int, float, bool)) or \
+            (isinstance(gid, str) and not gid.startswith('$'))
+        if const or top_field(gid):
+            keys = [gid if const else d.get(gid[1:]) for d in docs]
+            accs = [(name, list(spec.items())[0]) for name, spec in opts.items()
+                    if name != '_id' and isinstance(spec, dict) and len(spec) == 1]
+            accs = [(name, o, e) for name, (o, e) in accs if o in GROUP_OPS and top_field(e)]
+            if all(plain_key(k) or (const and isinstance(k, bool)) for k in keys):
+                stats['group=partition+fold'] += 1
+                spec = {'_id': gid, 'n__': {'$sum': 1}, 'ids__': {'$push': '$_id'}}
+                for name, o, e in accs:
+                    spec[name] = {o: e}
+                pipeline = [{'$group': spec}]
+                got = agg(db.c, pipeline)
+                want = collections.OrderedDict()
+                for d, k in zip(docs, keys):
+                    want.setdefault((type(k) is bool, key_class(k)), []).append(d)
+                ok = not isinstance(got, Exception) and len(got) == len(want)
+                why = 'number of groups'
+                if ok:
+                    for g in got:
+                        k = g.get('_id', MISSING)
+                        part = want.get((type(k) is bool, key_class(k))) \
+                            if (plain_key(k) or isinstance(k, bool)) else None
+                        if part is None or g.get('ids__') != [d['_id'] for d in part] or \
+                                g.get('n__') != len(part):
+                            ok, why = False, 'partition'
+                            break
+                        if const and not same_value(k, gid) and not (k is None and gid is None):
+                            ok, why = False, 'the constant _id is not reported as it is'
+                            break
+                        for name, o, e in accs:
+                            r = ref_accumulator(o, [d.get(e[1:], MISSING) for d in part])
+                            if r is None:
+                                continue
+                            stats['group accumulator=fold'] += 1
+                            v = g.get(name, MISSING)
+                            if v is MISSING or not (same_value(v, r[1]) or
+                                                    (v is None and r[1] is None)):
+                                ok, why = False, 'accumulator %s of field %s: expected %r' % (
+                                    o, name, r[1])
+                                break
+                        if not ok:
+                            break
+                if not ok:
+                    oids = wire.Oids()
+                    ctx.violation(render(dict(case, pipeline=pipeline), kind='$group does not '
+                                         'partition its input by key value and fold each part with '
+                                         'its accumulators (each group = the documents of that key '
+                                         'in input order, counted once; no group over no input; a '
+                                         'constant _id reported as it is): ' + why,
+                                         got=show_safe(got, oids)), rank=150 + len(repr(docs)))
+    if not docs:
+        return
     if op == '$lookup' and all(isinstance(opts.get(x), str) for x in
                                ('from', 'localField', 'foreignField', 'as')) and \
             opts['from'] == 'other' and 'let' not in opts and 'pipeline' not in opts:
